@@ -25,14 +25,6 @@ def clientChanRun (max : Nat) (ops : List String) : Option String := do
     | .error _ => return String.intercalate " " (out.reverse ++ ["panic"])
   pure (String.intercalate " " (out.reverse ++ ["cap=" ++ toString s.snd.capacity, "cur=" ++ toString s.rcv.cur]))
 
-/-- the schedule the harness produces, in terms of the model with messages in flight: after an operation of the sender
-the broker handles the item, the receiver's client delivers it and the sender's client delivers the announcement (if
-any); after a take the broker handles the grant and the sender's client delivers the announcement -/
-def expand : Op → List AOp
-  | .send => [.app .send, .brokerItem, .deliverItem, .deliverAnn]
-  | .take => [.app .take, .brokerGrant, .deliverAnn]
-  | op => [.app op]
-
 def clientChanRunA (max : Nat) (ops : List String) : Option String := do
   let mut s := ASys.ofSys (init max)
   let mut out : List String := []
